@@ -127,6 +127,14 @@ static size_t feed_frag(zckDL *dl, char *data, size_t len, const char *frag, int
     return feed(dl, data, len, frag, kind, 0);
 }
 
+static int feed_quiet = 0;
+static size_t feed_frag_quiet(zckDL *dl, char *data, size_t len, const char *frag) {
+    feed_quiet = 1;
+    size_t r = feed_frag(dl, data, len, frag, 0);
+    feed_quiet = 0;
+    return r;
+}
+
 /* serve D R Bpath style frag boundary : one request/response round for ranges[R] */
 static void do_serve(char **t, int nt) {
     (void)nt;
@@ -244,4 +252,166 @@ out:
                tgt && tgt->index.first ? zck_missing_chunks(tgt) : -1, esc);
     }
     free(B);
+}
+
+
+/* ---- fragmentation sweep (C05) ---------------------------------------
+ * sweep T0path Bpath limit style boundary mode allowed [corrupt_off]
+ *   mode: cuts1 | cuts2[:c1lo:c1hi] | list | rand:<count>:<seed>
+ *   allowed: extents (file offsets) inside which target writes must stay
+ *   corrupt_off: file offset in B whose byte the "server" flips (-1: none)
+ * For every fragmentation of the SAME response: restore the target image,
+ * run open + find_valid + reset_failed + missing_range + callbacks, and
+ * record the outcome (callbacks ok, valid flags, FNV-1a of the target image,
+ * out-of-extent writes).  Only distinct outcomes are logged, with counts. */
+static uint64_t fnv64(const unsigned char *p, size_t n) {
+    uint64_t h = 1469598103934665603ULL;
+    for(size_t i = 0; i < n; i++) { h ^= p[i]; h *= 1099511628211ULL; }
+    return h;
+}
+
+struct outcome { int ok; uint64_t img; char *flags; long oob; long count; char first[96]; int mp_state; };
+
+static void do_sweep(char **t, int nt) {
+    (void)nt;
+    size_t T0len, Blen;
+    char *T0 = slurp(t[1], &T0len);
+    char *B = slurp(t[2], &Blen);
+    int limit = atoi(t[3]);
+    int style = atoi(t[4]);
+    const char *boundary = t[5];
+    const char *mode = t[6];
+    const char *allowed = t[7];
+    long long corrupt = t[8] ? atoll(t[8]) : -1;
+    if(corrupt >= 0 && (size_t)corrupt < Blen) B[corrupt] ^= 0x41;
+    int fd = open("sweep_t.zck", O_RDWR | O_CREAT | O_TRUNC, 0644);
+    if(fd < 0) die("sweep target", NULL);
+    io_register(fd, "target");
+    struct outcome outs[32];
+    int nouts = 0;
+    long iters = 0;
+    struct resp rp;
+    int have_resp = 0;
+    char *rstr0 = NULL;
+    /* iteration state */
+    size_t c1 = 0, c2 = 0, c1lo = 1, c1hi = 0;
+    long rand_count = 0, rand_i = 0;
+    unsigned long long rand_seed = 1;
+    int list_i = 0;
+    const char *lists[] = {"all", "n:1", "n:2", "n:3", "n:5", "n:7", "n:64", "n:1000", "n:16384", NULL};
+    int m = 0; /* 1 cuts1, 2 cuts2, 3 list, 4 rand */
+    if(!strncmp(mode, "cuts1", 5)) m = 1;
+    else if(!strncmp(mode, "cuts2", 5)) { m = 2; if(mode[5] == ':') sscanf(mode + 6, "%zu:%zu", &c1lo, &c1hi); }
+    else if(!strcmp(mode, "list")) m = 3;
+    else if(!strncmp(mode, "rand:", 5)) { m = 4; sscanf(mode + 5, "%ld:%llu", &rand_count, &rand_seed); }
+    else die("bad sweep mode", mode);
+    int started = 0;
+    while(1) {
+        /* --- set up one run */
+        if(real_ftruncate(fd, 0) < 0) die("ftruncate", NULL);
+        size_t w = 0;
+        while(w < T0len) { ssize_t r = real_pwrite(fd, T0 + w, T0len - w, w); if(r <= 0) die("restore", NULL); w += r; }
+        real_lseek(fd, 0, SEEK_SET);
+        zckCtx *z = zck_create();
+        zckDL *dl = NULL;
+        zckRange *range = NULL;
+        int ok = -1;
+        if(!zck_init_read(z, fd)) { zh_log("{\"i\":%d,\"op\":\"sweep\",\"rc\":-2,\"err\":\"open\"}", opi); zck_free(&z); break; }
+        zck_find_valid_chunks(z);
+        zck_reset_failed_chunks(z);
+        dl = zck_dl_init(z);
+        range = zck_get_missing_range(z, limit);
+        if(!dl || !range || !zck_dl_set_range(dl, range)) { zh_log("{\"i\":%d,\"op\":\"sweep\",\"rc\":-2,\"err\":\"range\"}", opi); break; }
+        if(!have_resp) {
+            rstr0 = zck_get_range_char(z, range);
+            if(!rstr0 || !build_response(rstr0, B, Blen, style, boundary, &rp)) {
+                zh_log("{\"i\":%d,\"op\":\"sweep\",\"rc\":-2,\"err\":\"response\",\"ranges\":\"%s\"}", opi, rstr0 ? rstr0 : "");
+                break;
+            }
+            have_resp = 1;
+            zh_log("{\"i\":%d,\"ev\":\"request\",\"ranges\":\"%s\",\"count\":%d,\"resp_len\":%zu,\"hdr_len\":%zu}", opi, rstr0, zck_get_range_count(range), rp.body_len, rp.hdr_len);
+            /* body as hex for the python side (region classification), small responses only */
+            if(rp.body_len <= 2048) {
+                char *hx = malloc(rp.body_len * 2 + 1);
+                for(size_t k = 0; k < rp.body_len; k++) sprintf(hx + 2 * k, "%02x", (unsigned char)rp.body[k]);
+                zh_log("{\"i\":%d,\"ev\":\"response_body\",\"hex\":\"%s\"}", opi, hx);
+                free(hx);
+            }
+            if(m == 1) { c1 = 1; }
+            if(m == 2) { if(c1hi == 0 || c1hi > rp.body_len) c1hi = rp.body_len; c1 = c1lo; c2 = c1 + 1; }
+        }
+        /* --- choose the fragmentation for this run */
+        char spec[128];
+        if(m == 1) {
+            if(c1 >= rp.body_len) { zck_dl_free(&dl); zck_range_free(&range); zck_free(&z); break; }
+            snprintf(spec, sizeof(spec), "cuts:%zu", c1);
+        } else if(m == 2) {
+            if(c1 >= c1hi || c1 >= rp.body_len - 1) { zck_dl_free(&dl); zck_range_free(&range); zck_free(&z); break; }
+            snprintf(spec, sizeof(spec), "cuts:%zu,%zu", c1, c2);
+        } else if(m == 3) {
+            if(!lists[list_i]) { zck_dl_free(&dl); zck_range_free(&range); zck_free(&z); break; }
+            snprintf(spec, sizeof(spec), "%s", lists[list_i]);
+        } else {
+            if(rand_i >= rand_count) { zck_dl_free(&dl); zck_range_free(&range); zck_free(&z); break; }
+            size_t mx = (rand_i % 3 == 0) ? 16384 : ((rand_i % 3 == 1) ? 40 : 3);
+            snprintf(spec, sizeof(spec), "rand:%llu:%zu", rand_seed * 1000003ULL + rand_i, mx);
+        }
+        started = 1;
+        io_watch("target", allowed);
+        int h = deliver_headers(dl, &rp);
+        /* private copy: the library may modify the buffer it is handed */
+        char *body = malloc(rp.body_len ? rp.body_len : 1);
+        memcpy(body, rp.body, rp.body_len);
+        int saved_opi = opi;
+        ok = h ? (int)feed_frag_quiet(dl, body, rp.body_len, spec) : 0;
+        opi = saved_opi;
+        free(body);
+        long oob = io_oob_count;
+        io_watch("", "");
+        int mp_state = dl->mp ? dl->mp->state : -1;
+        /* --- outcome */
+        size_t cap = 256, o = 0;
+        char *fl = malloc(cap);
+        /* read the markings directly: the getters refuse while an error is pending */
+        for(zckChunk *c = z->index.first; c; c = c->next) {
+            if(o + 8 > cap) { cap *= 2; fl = realloc(fl, cap); }
+            o += snprintf(fl + o, cap - o, "%s%d", o ? "," : "", c->valid);
+        }
+        fl[o] = 0;
+        struct stat st;
+        fstat(fd, &st);
+        unsigned char *img = malloc(st.st_size ? st.st_size : 1);
+        if(real_pread(fd, img, st.st_size, 0) != st.st_size) die("pread", NULL);
+        uint64_t hsh = fnv64(img, st.st_size);
+        free(img);
+        int k;
+        for(k = 0; k < nouts; k++)
+            if(outs[k].ok == ok && outs[k].img == hsh && outs[k].oob == oob && !strcmp(outs[k].flags, fl)) break;
+        if(k == nouts && nouts < 32) {
+            outs[k].ok = ok; outs[k].img = hsh; outs[k].oob = oob; outs[k].flags = strdup(fl); outs[k].count = 0; outs[k].mp_state = mp_state;
+            snprintf(outs[k].first, sizeof(outs[k].first), "%s", spec);
+            nouts++;
+        }
+        if(k < 32) outs[k].count++;
+        free(fl);
+        iters++;
+        zck_dl_set_range(dl, NULL);
+        zck_dl_free(&dl);
+        zck_range_free(&range);
+        zck_free(&z);
+        /* --- advance */
+        if(m == 1) c1++;
+        else if(m == 2) { c2++; if(c2 >= rp.body_len) { c1++; c2 = c1 + 1; } }
+        else if(m == 3) list_i++;
+        else rand_i++;
+    }
+    (void)started;
+    for(int k = 0; k < nouts; k++)
+        zh_log("{\"i\":%d,\"ev\":\"outcome\",\"ok\":%d,\"img\":\"%016llx\",\"flags\":[%s],\"oob\":%ld,\"count\":%ld,\"first\":\"%s\",\"mp_state\":%d}", opi,
+               outs[k].ok, (unsigned long long)outs[k].img, outs[k].flags, outs[k].oob, outs[k].count, outs[k].first, outs[k].mp_state);
+    zh_log("{\"i\":%d,\"op\":\"sweep\",\"rc\":1,\"iterations\":%ld,\"distinct_outcomes\":%d,\"resp_len\":%zu}", opi, iters, nouts, have_resp ? rp.body_len : 0);
+    if(have_resp) { free(rp.hdr); free(rp.body); }
+    free(rstr0);
+    close(fd);
+    free(T0); free(B);
 }
